@@ -338,8 +338,12 @@ func runC11(rc *RunCtx) {
 	names11 := []string{"c11dist", "c01", "c05", "c06", "c10", "c13", "c15", "c17"}
 	for _, name := range names11 {
 		scn := c11Scenario(name)
+		// every transition of the exploration is also executed ten more times on the same state
+		scn.RepeatProperty, scn.Repeat = "C11", 10
+		scn.StepOracle, scn.StateOracle = nil, nil
 		sys := scnSystem{scn}
 		res := explore.Run(sys, explore.Options{MaxDepth: depth[name], Workers: rc.Workers, Budget: 5 * time.Minute, KeepTree: true})
+		rc.ViolateAll(res.Violations)
 		events := sys.Events()
 		paths := explore.MaximalPaths(res.Tree)
 		sort.Slice(paths, func(i, j int) bool { return fmt.Sprint(paths[i]) < fmt.Sprint(paths[j]) })
@@ -435,6 +439,7 @@ func runC11(rc *RunCtx) {
 	cov["states"] = states
 	cov["transitions"] = transitions
 	cov["traces_validated_against_impl"] = totalTraces
+	cov["repeated_executions_per_transition"] = 10
 	cov["replicas"] = replicas
 	cov["replica_kinds"] = "replica 0: plain node; every other replica: restarted after every block (new application object over the same database) and running CheckTx + Simulate around every delivered transaction, with an unrelated decoy application stepping in the same process"
 	cov["histories_compared"] = totalTraces
